@@ -168,6 +168,7 @@ class CallRec:
         self.kwargs = kwargs
         self.recv = recv
         self.result: t.Any = None
+        self.func: t.Optional[Func] = None
 
     def arg(self, pos: int, name: t.Optional[str] = None) -> t.Any:
         if name and name in self.kwargs:
@@ -192,6 +193,17 @@ class BSlice:
         return f"{self.base!r}[{'' if self.lo is None else repr(self.lo)}:{'' if self.hi is None else repr(self.hi)}]"
 
 
+class SBuf:
+    """A mutable buffer of a known (symbolic) size: ``bytearray(n)``."""
+
+    def __init__(self, bid: str, size: Lin) -> None:
+        self.bid = bid
+        self.size = size
+
+    def __repr__(self) -> str:
+        return f"buf#{self.bid}[{self.size!r}]"
+
+
 class CallVal:
     """The (unmodelled) result of a recorded call."""
 
@@ -209,6 +221,7 @@ class State:
         self.conds: t.List[t.Tuple[BoolVal, bool]] = []
         self.setattrs: t.List[t.Tuple[t.Any, str, t.Any]] = []
         self.calls: t.List["CallRec"] = []
+        self.stores: t.List[t.Tuple[t.Any, t.Any, t.Any, ast.AST]] = []  # (target value, index/slice, value, node)
         self.counter = [0]
 
     def fork(self) -> "State":
@@ -218,6 +231,7 @@ class State:
         s.conds = list(self.conds)
         s.setattrs = list(self.setattrs)
         s.calls = list(self.calls)
+        s.stores = list(self.stores)
         s.counter = self.counter
         return s
 
@@ -282,6 +296,8 @@ class Evaluator:
             return Lin.atom(("field", v.path))
         if isinstance(v, Unknown):
             return Lin.atom(("opaque", v.what))
+        if isinstance(v, CallVal):
+            return Lin.atom(("opaque", repr(v)))
         raise Unsupported(f"{self.func.qual}:{getattr(node, 'lineno', 0)}: expected an integer, got {v!r} in {unparse(node)}")
 
     def as_bytes(self, v: t.Any, node: ast.AST) -> SBytes:
@@ -416,6 +432,15 @@ class Evaluator:
         if isinstance(base, Unknown):
             return Unknown(f"{base.what}.{name}")
         if isinstance(base, CallVal):
+            fn_ = base.rec.func
+            if fn_ is not None and fn_.node.returns is not None:
+                rt = parse_type(self.repo, fn_.node.returns, fn_.mod)
+                if rt[0] == "opt":
+                    rt = rt[1]
+                if rt[0] == "cls":
+                    fld = rt[1].field(name)
+                    if fld is not None:
+                        return typed_value(f"{base!r}.{name}", parse_type(self.repo, fld.ann, self.repo.classes[fld.owner].mod))
             return Unknown(f"{base!r}.{name}")
         if isinstance(base, tuple) and base and base[0] == "method":
             return Unknown(unparse(node))
@@ -606,6 +631,8 @@ class Evaluator:
             return bool(v if isinstance(v, list) else v.items)
         if isinstance(v, (CallVal, BSlice)):
             return BoolVal(f"truthy({v!r})", {"truthy": repr(v)})
+        if isinstance(v, SBuf):
+            return BoolVal(f"nonempty({v!r})", {"nonzero": v.size})
         if isinstance(v, DictMap):
             return BoolVal(f"known({v.key!r})", {"dictmap": v})
         if isinstance(v, Unknown):
@@ -712,6 +739,8 @@ class Evaluator:
                 return v[2]
             if isinstance(v, Unknown):
                 return Lin.atom(("len", v.what))
+            if isinstance(v, SBuf):
+                return v.size
             if isinstance(v, (BSlice, CallVal)):
                 return Lin.atom(("len", repr(v)))
             raise Unsupported(f"{self.func.qual}:{e.lineno}: len({v!r})")
@@ -720,6 +749,12 @@ class Evaluator:
                 return SBytes([])
             v = self.eval(e.args[0], st)
             if isinstance(v, (SView, SBytes)):
+                return v
+            if isinstance(v, Lin) and dotted == "bytearray":
+                return SBuf(f"{e.lineno}", v)
+            if isinstance(v, SBuf):
+                return SView(f"buf#{v.bid}", Lin(0), v.size) if dotted == "memoryview" else v
+            if isinstance(v, CallVal):
                 return v
             if isinstance(v, TRef):
                 return self.as_bytes(v, e)
@@ -771,6 +806,7 @@ class Evaluator:
             kwv = {k: self.eval(x, st) for k, x in kw.items()}
             name = target.qual if isinstance(target, (Cls, Func)) else (target[2].qual if isinstance(target, tuple) and target and target[0] == "method" else dotted)
             rec = CallRec(e, name, args, kwv, recv)
+            rec.func = target if isinstance(target, Func) else (target[2] if isinstance(target, tuple) and target and target[0] == "method" else None)
             st.calls.append(rec)
             res = CallVal(rec)
             rec.result = res
